@@ -14,6 +14,7 @@ import (
 	"sync"
 
 	"github.com/go-json-experiment/json/internal/jsonflags"
+	"github.com/go-json-experiment/json/internal/jsonopts"
 	"github.com/go-json-experiment/json/internal/jsonwire"
 )
 
@@ -138,6 +139,17 @@ func (v *Value) format(opts1, opts2 []Options) error {
 	e := getBufferedEncoder(opts1...)
 	defer putBufferedEncoder(e)
 	e.s.Join(opts2...)
+	if len(opts2) > 0 {
+		// The defaults implied by Multiline must be derived from the combined
+		// options, exactly as if all of them had been passed to Format.
+		var s jsonopts.Struct
+		s.Join(opts1...)
+		s.Join(opts2...)
+		if s.Flags.Get(jsonflags.Multiline) {
+			s.InitializeMultiline()
+		}
+		e.s.Struct = s
+	}
 	e.s.Flags.Set(jsonflags.OmitTopLevelNewline | 1)
 	if err := e.s.WriteValue(*v); err != nil {
 		return err
